@@ -11,7 +11,7 @@ def instances(tier):
 
 
 CHECK = dict(
-    id='C18', pkgs=['tlb'], init_pkgs=['std:io', 'boc', 'tlb'], instances=instances, opts={'budget_s': 2400, 'hash_injective': True},
+    id='C18', pkgs=['tlb'], init_pkgs=['std:io', 'boc', 'tlb'], instances=instances, opts={'budget_s': 3000, 'hash_injective': True, 'vc_timeout': 400},
     level_text='A dictionary with 8-bit keys and 1..2 symbolic distinct keys and values is built with the real Put/Marshal; ProveKeyInHashmap for a present key returns the value and a BOC that parses to one Merkle-proof root whose data is 03 | hash | depth of the original root; an independent level-0 hasher written in the harness (pruned branches contribute their stored hash/depth) gives exactly the original root hash and depth for the pruned tree; the value decodes from the proof; an absent key yields an error.  12-bit keys (width not a multiple of 8), one entry: the present key is proved with its value and every absent key, including one differing only in the last 4 bits, is refused.',
     level_note='SHA-256 ideal (injective). The tree shape of the two-key instances is fixed per instance by the number of common leading key bits (all 8 shapes in the thorough tier, 2 in quick). Generic prune sets through the cursor API, wider keys and more than two entries are outside the bound.',
     bounds={'quick': {'entries': '1..2', 'key bits': 8, 'common-prefix lengths': [0, 7]}, 'thorough': {'entries': '1..2', 'common-prefix lengths': '0..7'}},
